@@ -178,7 +178,9 @@ class Families(object):
     def add(self, key, size, violation):
         self.totals[key] = self.totals.get(key, 0) + 1
         lst = self.best.setdefault(key, [])
-        item = (size, repr(violation["input"]), violation)
+        item = (size, repr(violation["input"]) + violation["function"], violation)
+        if any(x[:2] == item[:2] for x in lst):
+            return      # the same witness again (random groups of different shards can meet)
         if len(lst) < self.keep:
             lst.append(item)
             lst.sort(key=lambda t: t[:2])
